@@ -1347,3 +1347,80 @@ Proof.
   - cbn [app map]. repeat constructor; cbn; lia.
   - eexists _, _. vm_compute. reflexivity.
 Qed.
+
+(* ------------------------------------------------------------------------- *)
+(* whole messages, compression on or off                                      *)
+Section MsgAny.
+Variables dec2f dec2d : list Z -> Z.
+
+Theorem message_roundtrip_compressed o addr vs text w :
+  compress o = true -> good_addr addr -> Forall goodc vs -> Z.of_nat (length vs) < 2 ^ 31 ->
+  print_message o addr vs 0 = Some (text, w) ->
+  exists slots,
+    w = len text /\
+    count_printed_arg_vals_of_msg dec2f dec2d text = Ok (true, Z.of_nat (length slots)) /\
+    scan_message dec2f dec2d text (Z.of_nat (length slots)) = Ok (addr, slots, []) /\
+    expand slots = Some vs.
+Proof.
+  intros Hon [[ar Ea] Hns] Hg Hlen Hp. unfold print_message in Hp.
+  destruct (print_vals_loop (S (length vs)) o vs None 0 (Z.of_nat (length vs)) addr true 0
+              (0 + (len addr + 1)) (if 0 + (len addr + 1) =? 0 then 0 else 1)) as [[t w']|] eqn:El;
+    [|discriminate].
+  inversion Hp; subst text w; clear Hp.
+  assert (Hsk : forall tail f, skip_comments_ws f (addr ++ tail) = addr ++ tail)
+    by (intros; rewrite Ea; cbn [app]; apply skip_comments_ws_no; lia).
+  assert (Hhd : forall tail, hd0 (addr ++ tail) = 47) by (intros; rewrite Ea; reflexivity).
+  assert (Hnw : forall tail, skip_ws (addr ++ tail) = addr ++ tail)
+    by (intros; apply skip_ws_nonspace; rewrite Hhd; reflexivity).
+  destruct vs as [|v vs'].
+  - cbn in El. inversion El; subst t w'. cbn [length Z.of_nat Z.eqb].
+    assert (Hd := dropwhile_nonspace addr [32] Hns (or_intror eq_refl)). destruct Hd as [Hd Ht].
+    exists []. split; [rewrite len_app; cbn; unfold len; cbn; lia|].
+    unfold count_printed_arg_vals_of_msg, scan_message.
+    rewrite !Hnw, !Hsk, !Hhd. cbn [Z.eqb Pos.eqb negb]. rewrite Hd, Ht.
+    repeat split; reflexivity.
+  - apply (print_loop_iseq dec2f dec2d o Hon) in El; try assumption; try lia; try discriminate.
+    destruct El as (its & sfx & -> & -> & Hseq & Horig & _).
+    assert (Hne : its <> []) by (intros ->; cbn in Horig; discriminate).
+    destruct (iseq_from_iseq dec2f dec2d _ _ _ _ Hseq Hne) as (sepz & T & -> & HL & Hsep).
+    assert (Hz : (Z.of_nat (length (v :: vs')) =? 0) = false) by (apply Z.eqb_neq; cbn [length]; lia). rewrite !Hz.
+    destruct its as [|it its']; [congruence|].
+    destruct (iseq_first dec2f dec2d _ _ _ _ HL) as (c & r & -> & Hc).
+    assert (Hsp : sepz ++ c :: r = [] \/ isspace (hd0 (sepz ++ c :: r)) = true).
+    { right. destruct Hsep as [Hne' Hall]. destruct sepz as [|x s]; [congruence|]. now inversion Hall. }
+    destruct (dropwhile_nonspace addr (sepz ++ c :: r) Hns Hsp) as [Hd Ht].
+    assert (Hws : skip_ws (sepz ++ c :: r) = c :: r).
+    { apply skip_ws_sep; [apply Hsep|]. rewrite hd0_cons. apply Hc. }
+    exists (islots (it :: its')). split; [rewrite !len_app in *; lia|].
+    destruct (iseq_reads dec2f dec2d _ _ HL) as [Hcnt Hscan].
+    unfold count_printed_arg_vals_of_msg, scan_message.
+    rewrite !Hnw, !Hsk, !Hhd. cbn [Z.eqb Pos.eqb negb]. rewrite Hd, Ht, Hws.
+    split; [|split].
+    + unfold count_printed_arg_vals in *. rewrite Hws.
+      destruct Hc as (H0 & H47 & H37 & Hsp' & H46 & H40).
+      rewrite skip_comments_ws_no by assumption.
+      rewrite skip_ws_nonspace in Hcnt by now rewrite hd0_cons.
+      rewrite skip_comments_ws_no in Hcnt by assumption.
+      rewrite (count_loop_iseq dec2f dec2d _ _ _ HL); [reflexivity|reflexivity|].
+      rewrite app_length. cbn [length]. lia.
+    + now rewrite Hscan.
+    + rewrite <- Horig. exact (expand_items dec2f dec2d _ _ _ HL).
+Qed.
+
+Theorem message_roundtrip_any o addr vs text w :
+  good_addr addr -> Forall goodc vs -> Z.of_nat (length vs) < 2 ^ 31 ->
+  print_message o addr vs 0 = Some (text, w) ->
+  exists slots,
+    w = len text /\
+    count_printed_arg_vals_of_msg dec2f dec2d text = Ok (true, Z.of_nat (length slots)) /\
+    scan_message dec2f dec2d text (Z.of_nat (length slots)) = Ok (addr, slots, []) /\
+    expand slots = Some vs.
+Proof.
+  intros Ha Hg Hlen Hp. destruct (compress o) eqn:Ec.
+  - exact (message_roundtrip_compressed o addr vs text w Ec Ha Hg Hlen Hp).
+  - assert (Hgv : Forall good_val vs) by (eapply Forall_impl; [|exact Hg]; apply goodc_good).
+    destruct (message_roundtrip dec2f dec2d o addr vs text w Ec Ha Hgv Hp) as (Hw & Hc & Hs).
+    exists vs. repeat split; try assumption. apply expand_scalars.
+    eapply Forall_impl; [|exact Hg]. intros a Hx. apply (goodc_facts a Hx).
+Qed.
+End MsgAny.
